@@ -343,6 +343,8 @@ def real_manifest(g, vtool):
                 L.append("  depfile = %s\n" % models.depfile_path(e))
             if e['deps'] in ('gcc', 'msvc'):
                 L.append("  deps = %s\n" % e['deps'])
+            if e.get('deps_unknown'):
+                L.append("  deps = %s\n" % e['deps_unknown'])      # a deps type ninja does not know: an error once the command has run
             if e.get('pool'):
                 L.append("  pool = %s\n" % e['pool'])
             if e.get('rsp') is not None:
